@@ -6,6 +6,7 @@ import tempfile
 from pathlib import Path
 
 from checks import e2e_pages
+from checks import l2walk
 from checks import pagegen as G
 
 PROPERTY = "C08"
@@ -15,11 +16,14 @@ EXPLANATION = (
     "Deductive: every listener method under contract has a 'raises nothing' obligation for all states and all token texts "
     "of its rule (this is what found the strptime ValueErrors and the bullet-scan IndexError, repaired by fix commits), and "
     "the refusal logic of create_database / reindex_database is verified over abstract pages. "
+    "Level 2 (deductive, all parse trees): the walk of the listener over every derivation of ZorgFileParser.atn is verified over a predicate abstraction of the compiler state (engine/l2.py): each listener method is replaced by its Level-1 contract (one symbolic summary per method, abstract transformers by all-SAT), reachability over the ATN with rule summaries is the inductive invariant, and the walk obligations hold on it: the scope flags encode the syntactic region at every word (G1), a section's stores are empty when it is entered and reset when it is left (G3), parent sections are open (G6), the todo registers hold their defaults at every item (G5), note registers are reset and a block is open at every note, everything is closed at the end, and every precondition of a listener method holds at every call of the walk. "
+    "(for C08: no listener method is ever called outside its precondition on a conforming tree, so 'raises nothing' composes). "
     "Bounded (stated bound): totality and flag honesty on *invalid* text, where trees come from ANTLR's error recovery and are "
     "outside the tree assumption: all strings up to a length bound over a 14-symbol alphabet and valid pages damaged by edits, "
     "through the real walk_zorg_page and CreateDBCommand."
 )
-ASSUMPTIONS = ["A-ANTLR-TREE for the deductive part; error-recovery tree shapes are only covered by the bounded part", "A-ASCII"]
+ASSUMPTIONS = l2walk.ASSUMPTIONS + ["A-ANTLR-TREE for the deductive part; error-recovery tree shapes are only covered by the bounded part", "A-ASCII"]
+EXTRA = [l2walk.l2_file_walk]
 TRUSTED = ["antlr4 runtime", "z3 5.1 / cvc5 1.0.3", "pyvc symbolic interpreter (engine/)"]
 ALPHABET = ["#", "-", "o", "x", "P", "1", ":", "[", "]", "'", " ", "\n", "a", "2"]
 
